@@ -767,17 +767,17 @@ func CheckC17(e *Env) (int, error) {
 		"sim_time_note":                          "no clock in the tool; counted in files generated and verified",
 		"environment_variables_read_by_the_tool": envNames,
 		"configuration_variables_of_the_tool_left_alone": envOwn,
-		"environment_reads_with_opaque_names":    envOpaque,
-		"lists_verified":                         tot["lists_verified"],
-		"words_verified":                         tot["words_verified"],
-		"canonical_lists_reproduced":             tot["canonical_lists_reproduced"],
-		"faults_fired":                           map[string]int{"prestate_longer": tot["prestate_longer"], "prestate_shorter": tot["prestate_shorter"], "prestate_junk": tot["prestate_junk"], "prestate_absent": tot["prestate_absent"], "prestate_symlink_relative": tot["prestate_symlink-rel"], "prestate_symlink_absolute": tot["prestate_symlink-abs"], "prestate_symlink_dangling": tot["prestate_symlink-dangling"], "fault_runs_no_verdict": tot["fault_runs_no_verdict"], "fault_runs_tool_failed": tot["fault_runs_tool_failed"]},
-		"probes":                                 map[string]int{"truncation_needed_and_happened": tot["truncation_needed_and_happened"], "distinct_fetch_orders": len(firstLang), "runs_with_fragmented_bodies": tot["runs_with_fragmented_bodies"], "stray_leftover_files_of_a_killed_run": tot["stray_leftover_files"], "runs_with_a_file_over_64Ki_lines": scripts["runs_with_a_file_over_64Ki_lines"], "canonical_runs": scripts["canonical"]},
-		"map_ranges_rewritten":                   rep.MapRanges,
-		"uncontrolled_ranges":                    rep.OtherRanges,
-		"schedule_space_note":                    "10! fetch orders x 5^10 pre-states: real but shallow; most of the strength is the workload through the simulated upstream",
-		"raw_violations":                         len(viols),
-		"outcome_digest":                         od.String(),
+		"environment_reads_with_opaque_names":            envOpaque,
+		"lists_verified":                                 tot["lists_verified"],
+		"words_verified":                                 tot["words_verified"],
+		"canonical_lists_reproduced":                     tot["canonical_lists_reproduced"],
+		"faults_fired":                                   map[string]int{"prestate_longer": tot["prestate_longer"], "prestate_shorter": tot["prestate_shorter"], "prestate_junk": tot["prestate_junk"], "prestate_absent": tot["prestate_absent"], "prestate_symlink_relative": tot["prestate_symlink-rel"], "prestate_symlink_absolute": tot["prestate_symlink-abs"], "prestate_symlink_dangling": tot["prestate_symlink-dangling"], "fault_runs_no_verdict": tot["fault_runs_no_verdict"], "fault_runs_tool_failed": tot["fault_runs_tool_failed"]},
+		"probes":                                         map[string]int{"truncation_needed_and_happened": tot["truncation_needed_and_happened"], "distinct_fetch_orders": len(firstLang), "runs_with_fragmented_bodies": tot["runs_with_fragmented_bodies"], "stray_leftover_files_of_a_killed_run": tot["stray_leftover_files"], "runs_with_a_file_over_64Ki_lines": scripts["runs_with_a_file_over_64Ki_lines"], "canonical_runs": scripts["canonical"]},
+		"map_ranges_rewritten":                           rep.MapRanges,
+		"uncontrolled_ranges":                            rep.OtherRanges,
+		"schedule_space_note":                            "10! fetch orders x 5^10 pre-states: real but shallow; most of the strength is the workload through the simulated upstream",
+		"raw_violations":                                 len(viols),
+		"outcome_digest":                                 od.String(),
 	}
 	if err := e.WriteEvidence("C17", "exploration", cov, []string{
 		"go/parser, go/types and strconv.Unquote decide what a generated file 'contains'",
